@@ -295,6 +295,8 @@ def c03(run):
     interp_trace(run, ["C03"], "seq", sizes(run, 200, 4000), has_failed_call, spec="Trace_Seq.tla")
     interp_trace(run, ["C03"], "docinv", sizes(run, 100, 2000), has_failed_call, spec="Trace_Seq.tla")
     interp_trace(run, ["C03"], "conflict", sizes(run, 100, 2000), has_conflict, spec="Trace_Seq.tla")
+    interp_trace(run, ["C03"], "marksinv", sizes(run, 60, 1500), has_failed_call, spec="Trace_Seq.tla")
+    interp_trace(run, ["C03"], "textenc", sizes(run, 40, 1000), has_failed_call, spec="Trace_Seq.tla")
 
 
 def has_readat_pair(sc):
@@ -576,6 +578,12 @@ def c29(run):
     run.validate("Trace_Seq.tla", ["C29"], t, "iso-seq")
     count_nontrivial(run, t, has_iso)
     sample_scenario(run, t, has_iso, maxlen=8)
+    # isolated transactions on text with marks: the ops of the change may only name ancestors of H
+    t2 = os.path.join(run.work, "isomarks.ndjson")
+    drive(["isomarks", run.seed, sizes(run, 60, 1500), t2])
+    run.validate("Trace_Graph.tla", ["C29"], t2, "isomarks-graph")
+    run.validate("Trace_Interp.tla", ["C29"], t2, "isomarks-interp")
+    count_nontrivial(run, t2, has_iso)
 
 
 def has_err(sc):
@@ -592,6 +600,7 @@ def c06(run):
     graph_trace(run, ["C06"], has_err, run.cov["rule"], 50, 3000, family="dup")
     interp_trace(run, ["C06"], "docinv", sizes(run, 100, 2000), has_err, spec="Trace_Seq.tla")
     interp_trace(run, ["C06"], "seq", sizes(run, 100, 2000), has_err, spec="Trace_Seq.tla")
+    interp_trace(run, ["C06"], "marksinv", sizes(run, 60, 1500), has_err, spec="Trace_Seq.tla")
 
 
 def has_diff_pair(sc):
@@ -622,6 +631,87 @@ def c09(run):
     interp_trace(run, ["C09"], "patch", sizes(run, 100, 2000), has_remote_patches, spec="Trace_View.tla")
 
 
+
+# ---------------------------------------------------------------- rich text: encodings, marks, cursors
+MULTI = ("eacute", "euro", "grin", "woman", "laptop", "cacute", "zwj", "vs16", "objrepl")
+
+
+def text_objs(sc):
+    for o in view_objs(sc):
+        if o.get('ty') == 'text':
+            yield o
+
+
+def has_multiunit(sc):
+    return sc and sc[0].get('enc') != 'cp' and any(t in MULTI for o in text_objs(sc) for t in o.get('text', []))
+
+
+def has_marks(sc):
+    return any(o.get('marks') for o in text_objs(sc))
+
+
+def has_mark_overlap(sc):
+    return any(len(u) > 1 for o in text_objs(sc) for u in o.get('mat', [])) or \
+        sum(1 for e in sc for c in e.get('calls', []) if c.get('fn') in ('mark', 'unmark')) >= 3
+
+
+def has_cursor_of_deleted(sc):
+    """a remembered cursor whose element is no longer at the position it was taken from"""
+    return any(e.get('ev') == 'curs' for e in sc) and any(c.get('fn') in ('delete', 'splice', 'splice_text') and c.get('res') == 'ok'
+                                                            for e in sc for c in e.get('calls', []))
+
+
+def rich_trace(run, family, n, specs_checks, pred, seedoff=0):
+    t = os.path.join(run.work, f"{family}.ndjson")
+    drive([family, run.seed + seedoff, n, t])
+    for spec, checks in specs_checks:
+        run.validate(spec, checks, t, f"{family}-{spec.split('_')[1].split('.')[0].lower()}")
+    count_nontrivial(run, t, pred)
+    sample_scenario(run, t, pred, maxlen=6)
+
+
+def c24(run):
+    run.cov["rule"] = ("text editing programs (splice_text, delete, mark/unmark, concurrent edits, merges, isolated "
+                       "transactions) over an alphabet with 1-4 unit characters (a, e-acute, euro, emoji) under the code point, "
+                       "UTF-8, UTF-16 and grapheme encodings, 2-3 replicas, plus reads at historical heads: length = width of "
+                       "the string, get/get_all per unit index, marks()/get_marks(i)/spans()/cursor positions measured in "
+                       "units (Trace_Interp: OpSet widths per encoding), spans concatenate to the text, and every call's "
+                       "index/del arguments act in units (Trace_Seq); grapheme clusters made of several code points form a "
+                       "separate family (known finding); non-trivial = scenario under a multi-unit encoding whose text "
+                       "holds a multi-unit character")
+    rich_trace(run, "textenc", sizes(run, 100, 2500), [("Trace_Interp.tla", ["C24"]), ("Trace_Seq.tla", ["C24"])], has_multiunit)
+    rich_trace(run, "cursortext", sizes(run, 40, 1000), [("Trace_Interp.tla", ["C24"])], has_multiunit)
+    rich_trace(run, "grapheme", sizes(run, 25, 600), [("Trace_Interp.tla", ["C24"])], has_multiunit)
+
+
+def c25(run):
+    run.cov["rule"] = ("histories of text edits interleaved with mark/unmark over overlapping ranges (2 names, values incl. "
+                       "null, all 4 expand settings) by 2-3 replicas with merges, isolated transactions and reads at historical "
+                       "heads: marks(), get_marks(i) for every i and spans() must equal the Peritext reading of the decoded "
+                       "ops (OpSet!UnitMarks: greatest active mark id per name, null = unmarked); every mark call changes "
+                       "exactly the units [start,end) (Trace_Seq); every single-insertion transaction lands on the side of "
+                       "each mark boundary its expand flag asks for (OpSet!ExpandHolds); non-trivial = scenario with "
+                       "overlapping marks or >= 3 mark calls")
+    rich_trace(run, "marks", sizes(run, 120, 3000), [("Trace_Interp.tla", ["C25"]), ("Trace_Seq.tla", ["C25"])], has_mark_overlap)
+    rich_trace(run, "marksinv", sizes(run, 60, 1500), [("Trace_Interp.tla", ["C25"]), ("Trace_Seq.tla", ["C25"])], has_mark_overlap)
+    rich_trace(run, "textenc", sizes(run, 40, 1000), [("Trace_Interp.tla", ["C25"])], has_marks)
+    # convergence / save-load of mark-bearing histories
+    t = os.path.join(run.work, "marks.ndjson")
+    run.validate("Trace_Same.tla", ["C01"], t, "marks-same")
+
+
+def c26(run):
+    run.cov["rule"] = ("list and text histories (inserts, deletes, puts and increments on elements, concurrent edits, merges) "
+                       "in which cursors of both move modes are taken at random points and all of them are resolved on every "
+                       "replica at the end and at random historical heads: position = OpSet!CursorPos (visible element: its "
+                       "index; deleted + After: index of the next surviving element or the length; deleted + Before: nearest "
+                       "visible element along the insertion chain or 0; unknown element: error); in every projected state "
+                       "get_cursor_position(get_cursor(i)) = i for both modes and for the byte/string forms; "
+                       "non-trivial = scenario with remembered cursors and a later deletion")
+    rich_trace(run, "cursor", sizes(run, 150, 4000), [("Trace_Interp.tla", ["C26"])], has_cursor_of_deleted)
+    rich_trace(run, "cursortext", sizes(run, 100, 2500), [("Trace_Interp.tla", ["C26"])], has_cursor_of_deleted)
+
+
 def replay(run, path):
     """re-validate a recorded violating scenario"""
     from . import tlc_trace
@@ -645,6 +735,9 @@ REG = {
     "C28": ("model_checking", c28),
     "C29": ("model_checking", c29),
     "C08": ("model_checking", c08),
+    "C24": ("model_checking", c24),
+    "C25": ("model_checking", c25),
+    "C26": ("model_checking", c26),
     "C09": ("model_checking", c09),
     "C11": ("model_checking", c11),
     "C20": ("model_checking", c20),
